@@ -284,6 +284,25 @@ def _in_points(W, case, junk, verify, classes):
         cleanup.append(undo)
         return [members], lambda: vi(u.vertices)
 
+    def mk_universe_big():
+        # a LARGE list (beyond the sizes at which bulk-loading shortcuts are usually taken), all entries distinct
+        members = [Vertex(attributes={"i": 9000 + k}) for k in range([257, 300][(W.a + W.b) % 2])] + list(vs[:2])
+        u = Universe(vertices=members)
+        def undo():
+            for x in list(u.vertices):
+                u.remove_vertex(x)
+        cleanup.append(undo)
+        return [members], lambda: [id(x) for x in u.vertices]
+
+    def mk_link_big():
+        ends = [Vertex(attributes={"i": 9500 + k}) for k in range(260)] + [vs[W.a]]
+        l = PlainLink(vertices=ends)
+        def undo():
+            for x in list(l.vertices):
+                l.unlink_from(x)
+        cleanup.append(undo)
+        return [ends], lambda: [id(x) for x in l.vertices]
+
     def mk_laws():
         import types
 
@@ -313,6 +332,7 @@ def _in_points(W, case, junk, verify, classes):
         return [matrix, r0, side], lambda: ([x.i for x in u.vertices], [[(l.v1.i, l.v2.i) for l in v.links] for v in fresh])
 
     for name, mk in (("Vertex(links,universes,attributes)", mk_vertex), ("Link(vertices)", mk_link), ("Universe(vertices)", mk_universe),
+                     ("Universe(vertices: 257+ entries)", mk_universe_big), ("Link(vertices: 260 entries)", mk_link_big),
                      ("UniverseLaws(edge_whitelist)", mk_laws), ("load_adj_dict", mk_adjdict), ("load_adj_matrix", mk_adjmatrix)):
         run(name, mk)
         verify(f"{name} input mutated")
